@@ -39,6 +39,8 @@ func Tick() int { tick++; return tick }
 
 // Pipe is one connection; mangos holds it as a transport.Pipe, the harness as *Pipe.
 type Pipe struct {
+	lateOK bool
+	lost   int
 	ep       *Endpoint
 	Index    int
 	mu       sync.Mutex
@@ -375,6 +377,14 @@ func (p *Pipe) Send(m *mangos.Message) error {
 		p.cv.Wait()
 	}
 	p.sendWait--
+	if p.lateOK && (p.closed || p.dropped) {
+		// the bytes had been accepted by the network before the connection went down: the write
+		// reports success although nobody will ever read them
+		vsched.Tracef("vt pipe %d: write completed while the connection went down", p.Index)
+		p.lost++
+		m.Free()
+		return nil
+	}
 	if p.closed {
 		return mangos.ErrClosed
 	}
@@ -497,6 +507,14 @@ func (p *Pipe) Unread() int {
 }
 
 // SendersWaiting is the number of mangos Send calls blocked on this pipe.
+// LateSuccess makes a write that is in progress when the connection goes down report success
+// (as a kernel that had already buffered the bytes would).
+func (p *Pipe) LateSuccess(on bool) {
+	p.mu.Lock()
+	p.lateOK = on
+	p.mu.Unlock()
+}
+
 func (p *Pipe) SendersWaiting() int {
 	p.mu.Lock()
 	defer p.mu.Unlock()
